@@ -18,6 +18,7 @@ type Msg struct {
 	Status int
 	Header map[string]string // lower-case keys
 	Body   []byte
+	Enc    bool // arrived as secure-session frames
 }
 
 func (m *Msg) IsEvent() bool { return strings.HasPrefix(m.Proto, "EVENT/") }
@@ -25,8 +26,10 @@ func (m *Msg) IsEvent() bool { return strings.HasPrefix(m.Proto, "EVENT/") }
 // Conn is a controller connection: plaintext until Upgrade, framed ciphertext afterwards.
 type Conn struct {
 	C       net.Conn
-	br      *bufio.Reader
-	Sess    *Session
+	raw     *bufio.Reader // bytes as they arrive
+	dec     *bufio.Reader // plaintext of the frames read from raw (nil until Upgrade)
+	Sess    *Session // write side: nil = plaintext
+	decSess *Session // the session dec is bound to
 	Events  []*Msg
 	Timeout time.Duration
 }
@@ -36,21 +39,50 @@ func Dial(addr string) (*Conn, error) {
 	if err != nil {
 		return nil, err
 	}
-	return &Conn{C: c, br: bufio.NewReader(c), Timeout: 4 * time.Second}, nil
+	return &Conn{C: c, raw: bufio.NewReader(c), Timeout: 4 * time.Second}, nil
 }
 
 func (c *Conn) Close() { c.C.Close() }
 
 // Upgrade switches both directions to the secure session derived from the pair-verify shared secret.
 func (c *Conn) Upgrade(shared [32]byte) {
-	c.Sess = NewControllerSession(shared)
-	c.br = bufio.NewReader(&frameReader{s: c.Sess, r: c.C})
+	c.Install(NewControllerSession(shared))
 }
 
-// Downgrade returns to plaintext (used by the mode probe).
+// Install binds both directions to an existing session object.
+func (c *Conn) Install(s *Session) {
+	c.Sess = s
+	c.decSess = s
+	c.dec = bufio.NewReader(&frameReader{s: s, r: c.raw})
+}
+
+// SessInstalled returns the session the read side is bound to (nil = none).
+func (c *Conn) SessInstalled() *Session { return c.decSess }
+
+// Downgrade returns to plaintext writing and reading.
 func (c *Conn) Downgrade() {
 	c.Sess = nil
-	c.br = bufio.NewReader(c.C)
+	c.decSess = nil
+	c.dec = nil
+}
+
+// reader picks the stream the next message starts in: after Upgrade the peer may still answer in plaintext
+// (it never switched). A frame cannot start with "HT" or "EV" (length above 1024), so the choice is unambiguous.
+func (c *Conn) reader() (*bufio.Reader, bool, error) {
+	if c.dec == nil {
+		return c.raw, false, nil
+	}
+	if c.dec.Buffered() > 0 {
+		return c.dec, true, nil
+	}
+	p, err := c.raw.Peek(2)
+	if err != nil {
+		return nil, false, err
+	}
+	if (p[0] == 'H' && p[1] == 'T') || (p[0] == 'E' && p[1] == 'V') {
+		return c.raw, false, nil
+	}
+	return c.dec, true, nil
 }
 
 func BuildRequest(method, path, ctype string, body []byte) []byte {
@@ -80,7 +112,11 @@ func (c *Conn) WriteRaw(b []byte) error {
 // ReadMsg reads one message (response or event).
 func (c *Conn) ReadMsg() (*Msg, error) {
 	c.C.SetReadDeadline(time.Now().Add(c.Timeout))
-	line, err := c.br.ReadString('\n')
+	br, enc, err := c.reader()
+	if err != nil {
+		return nil, err
+	}
+	line, err := br.ReadString('\n')
 	if err != nil {
 		return nil, err
 	}
@@ -93,9 +129,9 @@ func (c *Conn) ReadMsg() (*Msg, error) {
 	if err != nil {
 		return nil, fmt.Errorf("malformed status line %q", line)
 	}
-	m := &Msg{Proto: parts[0], Status: st, Header: map[string]string{}}
+	m := &Msg{Proto: parts[0], Status: st, Header: map[string]string{}, Enc: enc}
 	for {
-		h, err := c.br.ReadString('\n')
+		h, err := br.ReadString('\n')
 		if err != nil {
 			return nil, err
 		}
@@ -114,7 +150,7 @@ func (c *Conn) ReadMsg() (*Msg, error) {
 	}
 	if strings.EqualFold(m.Header["transfer-encoding"], "chunked") {
 		for {
-			sz, err := c.br.ReadString('\n')
+			sz, err := br.ReadString('\n')
 			if err != nil {
 				return nil, err
 			}
@@ -125,7 +161,7 @@ func (c *Conn) ReadMsg() (*Msg, error) {
 			if n == 0 {
 				// trailers until blank line
 				for {
-					t, err := c.br.ReadString('\n')
+					t, err := br.ReadString('\n')
 					if err != nil {
 						return nil, err
 					}
@@ -136,7 +172,7 @@ func (c *Conn) ReadMsg() (*Msg, error) {
 				break
 			}
 			chunk := make([]byte, n+2)
-			if _, err := io.ReadFull(c.br, chunk); err != nil {
+			if _, err := io.ReadFull(br, chunk); err != nil {
 				return nil, err
 			}
 			if chunk[n] != '\r' || chunk[n+1] != '\n' {
@@ -152,13 +188,13 @@ func (c *Conn) ReadMsg() (*Msg, error) {
 			return nil, fmt.Errorf("malformed content-length %q", cl)
 		}
 		m.Body = make([]byte, n)
-		if _, err := io.ReadFull(c.br, m.Body); err != nil {
+		if _, err := io.ReadFull(br, m.Body); err != nil {
 			return nil, err
 		}
 		return m, nil
 	}
 	// no length: body runs to end of stream
-	b, err := io.ReadAll(c.br)
+	b, err := io.ReadAll(br)
 	m.Body = b
 	if err != nil {
 		return m, err
